@@ -7,7 +7,7 @@
      Q <kind> ;; cmd ;; cmd ...        kind: l = list queue, s = sorted queue
    Commands:
      reset <kind>
-     T <tid> si <interval> | ro <delay> <0|1> | fl <code> | sc <item,item,...|-> <item>     item: <int> | E<code>
+     T <tid> si <interval> | ro <delay> <0|1> | fl <code> | sc <item,item,...|-> <item>     item: <int> | E<code> | Ew (wrapped expiry = E0)
      A <now> S <name> <group> <repl> <susp> <tid|nil>      name: -jdnil- | -nil- | -empty- | <name>
      A <now> D|P|R|G <name> <group>                        name: -nil- | <name>
      A <now> C | A <now> K
@@ -116,7 +116,9 @@ let keystr (n, g) = ostring n ^ "/" ^ ostring g
 let b01 b = if b then "1" else "0"
 
 let item s : (M.z, M.terr) M.sum =
-  if String.length s > 0 && s.[0] = 'E' then M.Inr (nat_of_int (int_of_string (String.sub s 1 (String.length s - 1))))
+  (* Ew: expiry reported with the sentinel wrapped (errors.Is holds): the model's expiry code 0 *)
+  if s = "Ew" then M.Inr M.O
+  else if String.length s > 0 && s.[0] = 'E' then M.Inr (nat_of_int (int_of_string (String.sub s 1 (String.length s - 1))))
   else M.Inl (z_of_string s)
 let show_fire = function M.Inl p -> string_of_z p | M.Inr c -> "E" ^ string_of_int (int_of_nat c)
 
